@@ -611,6 +611,7 @@ func (m *Manager) rotateWAL() error {
 			fmt.Printf("Warning: error flushing old WAL: %v\n", err)
 		}
 	}
+	verifhook.Point("storage.rotate.after_oldflush")
 
 	// Atomically update the WAL reference using atomic pointer operations
 	atomic.StorePointer((*unsafe.Pointer)(unsafe.Pointer(&m.wal)), unsafe.Pointer(newWAL))
